@@ -6,7 +6,12 @@
 //!  (pipe) the Gallina pipeline `linted` / `written` vs the real `sqruff` binary built from the
 //!         tree: keys (and multiplicities) of `sqruff lint -f json <args>` and the files rewritten by
 //!         `sqruff fix --force <args>` on generated directory trees x extension lists x ignore files
-//!         x path arguments.
+//!         x path arguments;
+//!  (lib)  the same Gallina pipeline vs the library's public entry point `Linter::lint_paths` called
+//!         in-process (lint, then fix on the same linter), with the extension list reaching the
+//!         `FluffConfig` through every public route (config text, config map, the builder
+//!         `with_sql_file_exts`, the builder over a configured list, `Linter::config_mut`) and with
+//!         extension lists in arbitrary letter case.
 //! Independently of the model, every pipeline run is judged directly against the property text
 //! with the `ignore` crate as the gitignore reference (`Buf::direct`).
 use std::collections::{BTreeMap, BTreeSet};
@@ -15,7 +20,8 @@ use std::process::{Command, Stdio};
 
 use ignore::gitignore::{Gitignore, GitignoreBuilder};
 use serde_json::{Value, json};
-use sqruff_lib::core::config::FluffConfig;
+use sqruff_lib::core::config::{FluffConfig, Value as CfgValue};
+use sqruff_lib::core::linter::core::Linter;
 
 use crate::common::*;
 
@@ -615,6 +621,240 @@ fn run_pipe(env: &Env, idx: usize, c: &TreeCase, out: &mut Buf) {
     out.case("pipe", c.cls, nontrivial, args, exp, sample);
 }
 
+// ------------------------------------------------------------------ (lib) the library entry point
+/// The public routes by which a caller's extension list reaches the configuration the linter works with.
+const ROUTES: &[&str] = &["config-text", "config-map", "builder", "builder-over-configured-list", "config-mut"];
+const EXT_BASES: &[&str] = &[".sql", ".hql", ".ddl", ".txt", ".sql.j2", ".j2", "sql", ".dml", "README", ".h.sql"];
+
+#[derive(Clone)]
+struct LibCase {
+    base: TreeCase, // tree, ignore lines, arguments (all spelled absolute: the harness cannot change directory per thread)
+    route: usize,
+    exts: Vec<String>, // the list exactly as the caller supplies it
+}
+
+/// An extension list in arbitrary letter case: lower, upper, or mixed per letter; possibly with
+/// entries that only differ in case.
+fn gen_exts(rng: &mut Rng) -> Vec<String> {
+    let n = match rng.below(8) {
+        0 => 0,
+        1..=4 => 1,
+        5 | 6 => 2,
+        _ => 3,
+    };
+    let mut v: Vec<String> = vec![];
+    for _ in 0..n {
+        if !v.is_empty() && rng.chance(1, 6) {
+            // the same extension again in another case
+            let e = v[rng.below(v.len())].clone();
+            v.push(if e.chars().any(|c| c.is_ascii_uppercase()) { e.to_ascii_lowercase() } else { e.to_ascii_uppercase() });
+            continue;
+        }
+        let b = EXT_BASES[rng.below(EXT_BASES.len())];
+        let e: String = match rng.below(4) {
+            0 => b.to_string(),
+            1 | 2 => b.to_ascii_uppercase(),
+            _ => b.chars().map(|c| if rng.chance(1, 2) { c.to_ascii_uppercase() } else { c }).collect(),
+        };
+        v.push(e);
+    }
+    v
+}
+
+fn gen_lib_case(rng: &mut Rng) -> LibCase {
+    let mut base = gen_case(rng);
+    for a in base.args.iter_mut() {
+        a.0 = 2;
+    }
+    let route = rng.below(ROUTES.len());
+    let mut exts = gen_exts(rng);
+    if route == 0 && exts.is_empty() {
+        // a config text cannot express the empty list
+        exts = vec![".SQL".to_string()];
+    }
+    LibCase { base, route, exts }
+}
+
+fn lib_config(route: usize, exts: &[String]) -> FluffConfig {
+    let plain = "[sqruff]\ndialect = ansi\nrules = CP01\n";
+    match route {
+        0 => FluffConfig::from_source(&format!("{}sql_file_exts = {}\n", plain, exts.join(",")), None),
+        1 => {
+            let mut core: ahash::AHashMap<String, CfgValue> = Default::default();
+            core.insert("dialect".into(), CfgValue::String("ansi".into()));
+            core.insert("rules".into(), CfgValue::String("CP01".into()));
+            core.insert("sql_file_exts".into(), CfgValue::Array(exts.iter().map(|e| CfgValue::String(e.as_str().into())).collect()));
+            let mut m: ahash::AHashMap<String, CfgValue> = Default::default();
+            m.insert("core".into(), CfgValue::Map(core));
+            FluffConfig::new(m, None, None)
+        }
+        3 => FluffConfig::from_source(&format!("{}sql_file_exts = .txt,.HQL\n", plain), None).with_sql_file_exts(exts.to_vec()),
+        _ => FluffConfig::from_source(plain, None).with_sql_file_exts(exts.to_vec()),
+    }
+}
+
+/// The files in a `LintingResult`, one entry per `LintedFile` (multiset, sorted).
+fn lib_outs(root: &str, r: &sqruff_lib::core::linter::linting_result::LintingResult) -> Vec<(u8, Vec<String>)> {
+    let mut v = vec![];
+    for d in &r.paths {
+        for f in d.files.iter() {
+            v.push(if f.path == root.trim_end_matches('/') { (2u8, vec![]) } else { unspell(root, &f.path) });
+        }
+    }
+    v.sort_by_key(sort_key);
+    v
+}
+
+fn run_lib(env: &Env, idx: usize, lc: &LibCase, out: &mut Buf) {
+    let c = &lc.base;
+    let root = env.scratch.join(format!("l{}", idx));
+    let _ = std::fs::remove_dir_all(&root);
+    let input = json!({"kind":"lib","tree":c.tree,"route":ROUTES[lc.route],"exts":lc.exts,"lines":c.lines,"args":c.args,"cls":c.cls});
+    // only the tree: the library reads neither .sqruff nor .sqruffignore (configuration and ignorer are arguments)
+    let bare = TreeCase { lines: None, ..c.clone() };
+    let made = materialise(&root, &bare).and_then(|_| std::fs::remove_file(root.join(".sqruff")));
+    if let Err(e) = made {
+        out.count("materialise_failed", 1);
+        let _ = std::fs::remove_dir_all(&root);
+        eprintln!("materialise: {e}");
+        return;
+    }
+    let root = root.canonicalize().unwrap_or(root);
+    let rootp = format!("{}/", root.display());
+    let gi = match c.lines.as_ref().map(|l| build_gi(l)) {
+        Some(Err(_)) => {
+            out.count("lib_pattern_rejected_by_crate", 1);
+            let _ = std::fs::remove_dir_all(&root);
+            return;
+        }
+        Some(Ok(g)) => Some(g),
+        None => None,
+    };
+    // the caller's ignorer: gitignore semantics relative to the root, the `ignore` crate deciding each level
+    let ignored = |p: &Vec<String>| gi.as_ref().map(|g| ref_ignored(g, p, false)).unwrap_or(false);
+    let asked = std::sync::Mutex::new(Vec::<String>::new());
+    let ignorer = |p: &Path| -> bool {
+        let s = p.to_string_lossy().to_string();
+        asked.lock().unwrap().push(s.clone());
+        let comps = unspell(&rootp, &s).1;
+        !comps.is_empty() && ignored(&comps)
+    };
+    let eff_args: Vec<(u8, Vec<String>)> = if c.args.is_empty() { vec![(2, vec![])] } else { c.args.clone() };
+    let paths: Vec<PathBuf> = eff_args.iter().map(|a| PathBuf::from(spell(&root, a))).collect();
+    let route = lc.route;
+    let exts_in = lc.exts.clone();
+    let r = catch(|| {
+        let mut linter = if route == 4 {
+            // the list is set on an existing linter
+            let mut l = Linter::new(FluffConfig::from_source("[sqruff]\ndialect = ansi\nrules = CP01\n", None), None, None, false);
+            let c2 = l.config().clone().with_sql_file_exts(exts_in.clone());
+            *l.config_mut() = c2;
+            l
+        } else {
+            Linter::new(lib_config(route, &exts_in), None, None, false)
+        };
+        let stored = linter.config().sql_file_exts().to_vec();
+        let lint = lib_outs(&rootp, &linter.lint_paths(paths.clone(), false, &ignorer));
+        // history: the same linter again, in fix mode (the library writes nothing itself)
+        let fix = lib_outs(&rootp, &linter.lint_paths(paths.clone(), true, &ignorer));
+        (stored, lint, fix)
+    });
+    let untouched = c.tree.iter().filter(|(_, d)| !*d).all(|(p, _)| std::fs::read_to_string(root.join(p.join("/"))).map(|s| s == SQL).unwrap_or(false));
+    let _ = std::fs::remove_dir_all(&root);
+
+    // ---------------- direct judgement against the property text
+    let is_dir = |p: &Vec<String>| p.is_empty() || c.tree.iter().any(|(q, d)| q == p && *d);
+    let has_ext = |name: &str| lc.exts.iter().any(|e| name.to_lowercase().ends_with(e.to_lowercase().as_str()));
+    let mut expected: BTreeSet<Vec<String>> = BTreeSet::new();
+    for (_, a) in &eff_args {
+        if is_dir(a) {
+            for (p, d) in &c.tree {
+                if !*d && p.len() > a.len() && p[..a.len()] == a[..] && has_ext(p.last().unwrap()) {
+                    expected.insert(p.clone());
+                }
+            }
+        } else {
+            expected.insert(a.clone());
+        }
+    }
+    let n_ignored = expected.iter().filter(|p| ignored(p)).count();
+    let expected: BTreeSet<Vec<String>> = expected.into_iter().filter(|p| !ignored(p)).collect();
+    let upper = lc.exts.iter().any(|e| e.chars().any(|ch| ch.is_ascii_uppercase()));
+    out.count("lib_runs", 1);
+    out.count(&format!("lib_runs_route_{}", ROUTES[lc.route]), 1);
+    if upper {
+        out.count("lib_runs_with_upper_case_in_the_extension_list", 1);
+    }
+    out.count("lib_candidate_files_ignored", n_ignored);
+    out.count("lib_expected_files", expected.len());
+    let has_dup_args = {
+        let mut s = BTreeSet::new();
+        eff_args.iter().any(|(_, a)| !s.insert(a.clone())) || (eff_args.len() > 1 && eff_args.iter().any(|(_, a)| is_dir(a)))
+    };
+    let cls = format!("lib:{}:{}", ROUTES[lc.route], c.cls);
+    match &r {
+        Err(e) => out.direct(&cls, false, "c19-lib-lint-paths-panicked", &format!("Linter::lint_paths panicked: {}", trunc(e, 300)), input.clone()),
+        Ok((_, lint, fix)) => {
+            let judge = |outs: &Vec<(u8, Vec<String>)>, mode: &str| -> Option<(&'static str, String)> {
+                let observed: BTreeSet<Vec<String>> = outs.iter().map(|o| o.1.clone()).collect();
+                if let Some(p) = observed.difference(&expected).next() {
+                    let key = if ignored(p) { "c19-lib-ignored-file-linted" } else { "c19-lib-unexpected-file-linted" };
+                    return Some((key, format!("{mode}: processed but not in the specified set: {}", p.join("/"))));
+                }
+                if let Some(p) = expected.difference(&observed).next() {
+                    return Some(("c19-lib-file-not-linted", format!("{mode}: in the specified set (extension list {:?} via {}) but not processed: {}", lc.exts, ROUTES[lc.route], p.join("/"))));
+                }
+                if outs.len() != observed.len() {
+                    return Some(("c19-lib-file-processed-twice", format!("{mode}: a file is in the result more than once")));
+                }
+                None
+            };
+            let mut asked_v = asked.lock().unwrap().clone();
+            asked_v.sort();
+            let n_asked = asked_v.len();
+            asked_v.dedup();
+            if let Some((key, msg)) = judge(lint, "lint").or_else(|| judge(fix, "fix")) {
+                out.direct(&cls, false, key, &msg, input.clone());
+            } else if !untouched {
+                out.direct(&cls, false, "c19-lib-file-written", "Linter::lint_paths changed a file of the tree", input.clone());
+            } else if asked_v.len() != n_asked / 2 || n_asked % 2 != 0 {
+                out.direct(&cls, false, "c19-lib-ignorer-asked-twice", "the ignorer was asked about the same file more than once in one call", input.clone());
+            } else {
+                out.direct(&cls, true, "", "", Value::Null);
+            }
+        }
+    }
+
+    // ---------------- correspondence case for the Gallina pipeline (extension list as supplied by the caller)
+    let args = g_tuple(&[
+        g_list(c.tree.iter().map(|(p, d)| format!("{{| e_path := {}; e_dir := {} |}}", g_path(p), g_bool(*d)))),
+        g_list(lc.exts.iter().map(|e| g_str(e))),
+        g_list(c.lines.clone().unwrap_or_default().iter().map(|l| g_str(l))),
+        g_list(eff_args.iter().map(|a| format!("{{| a_pfx := {}; a_path := {} |}}", g_pfx(a.0), g_path(&a.1)))),
+    ]);
+    let exp = match &r {
+        Ok((_, lint, fix)) => format!("(Some ({},{}))", g_list(lint.iter().map(g_out)), g_list(fix.iter().map(g_out))),
+        Err(_) => "None".to_string(),
+    };
+    let show = |v: &Vec<(u8, Vec<String>)>| v.iter().map(|o| o.1.join("/")).collect::<Vec<_>>();
+    let sample = json!({"input":input,"paths":paths.iter().map(|p| p.display().to_string()).collect::<Vec<_>>(),
+        "stored_sql_file_exts":r.as_ref().ok().map(|x| x.0.clone()),
+        "linted":r.as_ref().ok().map(|x| show(&x.1)),"processed_in_fix_mode":r.as_ref().ok().map(|x| show(&x.2))});
+    out.case("lib", &cls, n_ignored > 0 || has_dup_args || upper, args, exp, sample);
+}
+
+fn parse_lib_case(v: &Value) -> LibCase {
+    let mut base = parse_tree_case(v);
+    for a in base.args.iter_mut() {
+        a.0 = 2;
+    }
+    LibCase {
+        base,
+        route: ROUTES.iter().position(|r| Some(*r) == v["route"].as_str()).unwrap_or(2),
+        exts: v["exts"].as_array().map(|a| a.iter().map(|s| s.as_str().unwrap_or("").to_string()).collect()).unwrap_or_default(),
+    }
+}
+
 fn parse_tree_case(v: &Value) -> TreeCase {
     let strs = |x: &Value| -> Vec<String> { x.as_array().map(|a| a.iter().map(|s| s.as_str().unwrap_or("").to_string()).collect()).unwrap_or_default() };
     TreeCase {
@@ -630,6 +870,7 @@ enum Item {
     Gi(GiItem),
     Git(usize, GiItem),
     Pipe(usize, TreeCase),
+    Lib(usize, LibCase),
 }
 
 pub fn main(args: &Args) {
@@ -655,6 +896,8 @@ pub fn main(args: &Args) {
                 cls: "replay",
             };
             items.push(if v["kind"] == "git" { Item::Git(0, g) } else { Item::Gi(g) });
+        } else if v["kind"] == "lib" {
+            items.push(Item::Lib(0, parse_lib_case(&v)));
         } else {
             items.push(Item::Pipe(0, parse_tree_case(&v)));
         }
@@ -688,7 +931,14 @@ pub fn main(args: &Args) {
                 cls: "regression",
             },
         ));
-        let (n_gi, n_pipe) = if args.thorough() { (20000, 6000) } else { (2500, 700) };
+        // the library entry point: every route x {lower, upper, mixed, case-duplicated} lists on the README tree
+        for route in 0..ROUTES.len() {
+            for exts in [vec![s(".sql"), s(".hql")], vec![s(".SQL")], vec![s(".Sql"), s(".HQL")], vec![s(".sql"), s(".SQL")], vec![s(".TXT"), s(".sql.J2")]] {
+                items.push(Item::Lib(0, LibCase { base: TreeCase { tree: t1.clone(), exts_cfg: s(""), lines: Some(readme.clone()), args: vec![(2, vec![])], cls: "regression" }, route, exts: exts.clone() }));
+                items.push(Item::Lib(0, LibCase { base: TreeCase { tree: t1.clone(), exts_cfg: s(""), lines: None, args: vec![(2, p("sub")), (2, p("a.sql")), (2, vec![]), (2, p("a.sql"))], cls: "regression" }, route, exts }));
+            }
+        }
+        let (n_gi, n_pipe, n_lib) = if args.thorough() { (20000, 6000, 12000) } else { (2500, 700, 1500) };
         for _ in 0..n_gi {
             let lines = gen_lines(&mut rng);
             let np = rng.range(3, 8);
@@ -701,10 +951,14 @@ pub fn main(args: &Args) {
         for _ in 0..n_pipe {
             items.push(Item::Pipe(0, gen_case(&mut rng)));
         }
+        // after everything else, so that the gi / git / pipe cases of a seed stay what they were
+        for _ in 0..n_lib {
+            items.push(Item::Lib(0, gen_lib_case(&mut rng)));
+        }
     }
     let mut k = 0usize;
     for it in items.iter_mut() {
-        if let Item::Pipe(i, _) = it {
+        if let Item::Pipe(i, _) | Item::Lib(i, _) = it {
             *i = k;
             k += 1;
         }
@@ -713,6 +967,7 @@ pub fn main(args: &Args) {
         Item::Gi(g) => run_gi(g, buf),
         Item::Git(i, g) => run_git(&env.scratch, *i, g, buf),
         Item::Pipe(i, c) => run_pipe(&env, *i, c, buf),
+        Item::Lib(i, c) => run_lib(&env, *i, c, buf),
     });
     let _ = std::fs::remove_dir_all(&scratch);
     out.finish();
